@@ -102,6 +102,16 @@ class Cx:
 
 
 ObFn = Callable[[Cx, Ob], None]
+THOROUGH_EXTRAS: dict[str, list] = {}
+
+
+def thorough_extra(prop: str):
+    def deco(fn):
+        THOROUGH_EXTRAS.setdefault(prop, []).append(fn)
+        return fn
+
+    return deco
+
 REGISTRY: dict[str, list[tuple[str, str, int, ObFn]]] = {}
 
 
